@@ -63,3 +63,22 @@ Theorem C16_placeholder_patterns_in_both_clients :
   names_regex_v1 = bs "^#[A-Za-z0-9_]+$" /\ names_regex_v2 = bs "^#[A-Za-z0-9_]+$" /\
   values_regex_v1 = bs "^:[A-Za-z0-9_]+$" /\ values_regex_v2 = bs "^:[A-Za-z0-9_]+$".
 Proof. exact regexes_agree. Qed.
+
+(* a name placeholder that the expressions use and the request does not define is rejected (fix 1740da6) *)
+Theorem C16_undefined_name_rejected :
+  forall names vals exprs,
+    undefined_name_in (trim (join (bs " ") exprs)) names = true -> validate_expr_attrs names vals exprs = false.
+Proof. exact undefined_name_rejected. Qed.
+
+(* a reserved word used as an attribute name is rejected in every expression of the request, wherever it stands: the
+   check works on the tokens of the expression (fix fb4521f), and finds every identifier that is a reserved word and
+   is not a function name (not followed by an opening parenthesis) *)
+Theorem C16_reserved_word_rejected :
+  forall names vals exprs e,
+    In e exprs -> reserved_word_in e = true -> trim (join (bs " ") exprs) <> [] -> validate_expr_attrs names vals exprs = false.
+Proof. exact reserved_word_rejected. Qed.
+
+Theorem C16_reserved_word_found_in_every_position :
+  forall pre a b post,
+    ty a = IDENT -> ty b <> LPAREN -> is_reserved (lit a) = true -> reserved_in_tokens (pre ++ a :: b :: post) = true.
+Proof. exact reserved_in_tokens_spec. Qed.
